@@ -270,6 +270,20 @@ theorem C02_balance (ints : String → Int) (cls : String → AssetClass) (fee :
   simp only [changeOf, CExp.den, den_minusAll]
   omega
 
+/-- The change of a minting transaction: `source + minted - burnt - p₁ - … - pₙ - fees`. -/
+def changeOfMint (x : String) (minted burnt : CExp) (ps : List CExp) : CExp :=
+  .sub (minusAll (.sub (.add (.input x) minted) burnt) ps) .fees
+
+/-- **C02 (value is preserved, with mint and burn).**  What the outputs denote plus the fee is, class by class, the
+total of the UTxOs assigned to `source` plus what is minted less what is burnt. -/
+theorem C02_balance_mint (ints : String → Int) (cls : String → AssetClass) (fee : Int) (assigned : String → List UtxoMeta)
+    (x : String) (minted burnt : CExp) (ps : List CExp) (k : AssetClass) :
+    denSum ints cls fee assigned ps k + (changeOfMint x minted burnt ps).den ints cls fee assigned k +
+      (if k = AssetClass.naked then fee else 0) =
+    TExp.utxoTotal (assigned x) k + minted.den ints cls fee assigned k - burnt.den ints cls fee assigned k := by
+  simp only [changeOfMint, CExp.den, den_minusAll]
+  omega
+
 /-! ### the hypotheses are satisfiable: the example of `C01Change`, `source - Ada(quantity) - fees` -/
 
 theorem chDen (k : AssetClass) :
